@@ -453,6 +453,12 @@ def ibtp_request_prog(ids, index, frm="1356:chainA:svc1", to="1356:chainB:svc1",
     return ("touch", ic, ("touch", CID["servicemgr"], ("cross", tm, ("raw", k_tx, "OBS", ("done",)), rest, rest)))
 
 
+def op_ibtp_receipt_defect(frm, index, defect):
+    """receipt (type RECEIPT_SUCCESS) for request chainA->chainB #index whose proof is absent / does not hash: rejected before execution"""
+    return dict(tx={"t": "ibtp", "from": frm, "ibtp": ibtp(index, typ=1), "proof": {"kind": defect}}, frm=frm,
+                body=("ibtp", ("done",)), invalid=True, tag="receipt_" + defect)
+
+
 def op_ibtp_ok(ids, frm, index, **kw):
     """valid request chainA:svc1 -> chainB:svc1 with the expected index"""
     return dict(tx={"t": "ibtp", "from": frm, "ibtp": ibtp(index, **kw)}, frm=frm,
@@ -564,9 +570,20 @@ class Run:
             accts += o.get("accts", [])
         other = ob.get("other") or 0
         changed = {}
+        ibtp_succeeded = any(o["tx"].get("t") == "ibtp" and rc[0] == 0 for o, rc in zip(ops, ob["receipts"]))
+        senders = set(o["frm"] for o in ops)
+        for a in ob.get("accts") or []:
+            # an account record that appears with balance 0 and nonce 0 for an account that sent nothing: left behind by
+            # a transaction that did not take effect (only a FAILED one can create-and-revert an account)
+            if len(a) > 6 and (not a[5]) and a[6] and int(a[2]) == 0 and int(a[4]) == 0 and a[0] not in senders:
+                other += 1
         for s in ob.get("state") or []:
             if s[0] == "c:txmgr" and s[1].startswith("timeout-"):
-                continue        # written by the executor's block post-processing (setTimeoutList), outside any transaction frame
+                # the executor's block post-processing (setTimeoutList) adds accepted requests / removes answered ones:
+                # outside any transaction frame, and only on behalf of SUCCESS IBTP transactions
+                if not ibtp_succeeded:
+                    other += 1
+                continue
             k = ids.key(s[0], s[1])
             if k in keys or not (opaque and s[0] in OPAQUE_CONTRACTS):
                 changed[k] = (s[0], s[1])
